@@ -1,2 +1,2 @@
 SPECIFICATION TSpec
-INVARIANTS TMacSoundReq TMacSoundResp TAuthReply TAuthReplyClient TReplyAddressing TForwardRule TNoStrayToEh
+INVARIANTS TMacSoundReq TMacSoundFetcher TMacSoundResp TAuthReply TAuthReplyClient TReplyAddressing TForwardRule TNoStrayToEh
